@@ -30,6 +30,8 @@ type Case struct {
 	Filter bool `json:"filter,omitempty"`
 	// RelChar: EDI schema declares release_character '?'; unit texts are escaped with it
 	RelChar bool `json:"release_char,omitempty"`
+	// Pat: pattern case: units are raw lines, record declarations carry header/footer regexps
+	Pat bool `json:"pat,omitempty"`
 }
 
 type corpusFile struct {
@@ -119,6 +121,9 @@ type outcome struct {
 // Coq case.  forceOracle evaluates the oracle even outside the guards (corpus cases).
 func (h *H) runCase(c *Case, toCoq, forceOracle bool) *outcome {
 	out := &outcome{}
+	if c.Pat {
+		assignPatMasks(c)
+	}
 	if h.trace != "" {
 		h.recent = append(h.recent, *c)
 		if len(h.recent) > 8 {
@@ -150,7 +155,7 @@ func (h *H) runCase(c *Case, toCoq, forceOracle bool) *outcome {
 		out.accepted = true
 		impl = runDirect(eff, c.Units, c.Release, c.Filter)
 	} else {
-		schema := schemaFor(c.Driver, eff0(c), c.Omit, c.RelChar)
+		schema := schemaFor(c.Driver, eff0(c), c.Omit, c.RelChar, c.Pat)
 		rt, err := validate(c.Driver, schema, c.Filter)
 		out.accepted = err == nil
 		want := modelAccepts(c.Driver, c.Decls)
@@ -168,6 +173,13 @@ func (h *H) runCase(c *Case, toCoq, forceOracle bool) *outcome {
 			input, _ = hex.DecodeString(c.RawHex)
 		}
 		impl = runFormat(c.Driver, rt, input, len(c.Units), c.Release)
+	}
+	if c.Pat && c.Driver != "direct" {
+		// delivered lines are identified by their text; where the delivered instances have the shape
+		// and the texts the matcher expects they are those units, otherwise align from the left
+		if !adoptIDs(impl.Deliv, out.spec.Deliv) {
+			alignIDs(impl.Deliv, c.Units)
+		}
 	}
 	out.impl, out.ran = impl, true
 	out.guard = inGuard(eff) && c.RawHex == ""
@@ -227,6 +239,9 @@ func (h *H) report(c *Case, out *outcome) {
 // decorate adds, to a share of the generated cases, the FINAL_OUTPUT filter with randomly flagged
 // units, and for EDI the release character with escaped text in an extra element.
 func (h *H) decorate(c *Case) {
+	if c.Pat {
+		return
+	}
 	r := h.rng
 	us := append([]Unit(nil), c.Units...)
 	if !c.Filter && r.Chance(0.35) {
@@ -294,7 +309,7 @@ func implStepper(c *Case) *stepper {
 	if c.Driver == "direct" {
 		return nil
 	}
-	rt, err := validate(c.Driver, schemaFor(c.Driver, eff0(c), c.Omit, c.RelChar), c.Filter)
+	rt, err := validate(c.Driver, schemaFor(c.Driver, eff0(c), c.Omit, c.RelChar, c.Pat), c.Filter)
 	if err != nil {
 		return nil
 	}
@@ -660,6 +675,9 @@ func main() {
 									h.sum.Hist("duplicate-names")
 								}
 								allWords(alphabet(2), wl, func(us []Unit) {
+									if tgt >= 2 && len(us) > 3 {
+										return // same-name variants: words up to length 3 (longer ones are in the sampled stream)
+									}
 									w := append([]Unit(nil), us...)
 									enumRun++
 									h.generated(&Case{Driver: "direct", Decls: ds, Units: w, Release: enumRun % 3}, coqEvery(700))
@@ -763,6 +781,21 @@ func main() {
 		c := genDirected(r, drv, i%5, i/5)
 		h.generated(c, i%10 == 0)
 		h.sum.Hist("directed-refill-input")
+	}
+
+	// ---- (e) pattern cases: regexps of every kind as header/footer, white-space-only lines as units ----
+	npat := o.Count(3000, 60000)
+	for i := 0; i < npat; i++ {
+		c := genPat(r)
+		h.generated(c, coqEvery(12))
+		h.sum.Hist("pattern-case")
+		if countTargets(c.Decls) <= 1 {
+			fc := *c
+			fc.Driver = []string{"csv2", "fixedlength2"}[i%2]
+			fc.Decls = cloneDecls(c.Decls)
+			fc.Omit = r.Chance(0.5)
+			h.generated(&fc, coqEvery(6))
+		}
 	}
 
 	// ---- (d) EDI inputs of several scanner-buffer refills, and readers alive at once ----
